@@ -137,6 +137,31 @@ macro_rules! gen_c02 {
             })();
             if let Err(e) = r { acc.hit(stringify!($cs), "setup failed", json!({"error": format!("{:?}", e)})); }
         }
+        // passwords beyond what the OPRF can encode (> 65535 bytes) are refused on the unchanged tree.  Should a tree accept one at registration,
+        // everything it could have been folded into is tried as a wrong password: prefixes at the encodable limit, digests (the HMAC long-key
+        // idiom) in raw and hex form, one more byte
+        {
+            use sha2::Digest as _;
+            for n in [65536usize, 70000] {
+                let longp: Vec<u8> = (0..n as u32).map(|i| (i % 253) as u8).collect();
+                let mut cands: Vec<(String, Vec<u8>)> = vec![("first 65535 bytes".into(), longp[..65535].to_vec()), ("first 65534 bytes".into(), longp[..65534].to_vec()), ("first 65533 bytes".into(), longp[..65533].to_vec()),
+                    ("SHA-256".into(), sha2::Sha256::digest(&longp).to_vec()), ("SHA-384".into(), sha2::Sha384::digest(&longp).to_vec()), ("SHA-512".into(), sha2::Sha512::digest(&longp).to_vec())];
+                let hexes: Vec<(String, Vec<u8>)> = cands[3..].iter().map(|(k, v)| (format!("hex {}", k), hx(v).into_bytes())).collect();
+                cands.extend(hexes);
+                let mut one_more = longp.clone(); one_more.push(0); cands.push(("one more byte".into(), one_more));
+                let mut rng = StdRng::seed_from_u64(2900 + n as u64);
+                let p = Params { pw: &longp, cred: b"id", idu: None, ids: None, ctx: None };
+                acc.tried += 1;
+                let reg = (|| -> Result<_, ProtocolError> { let (setup, file, _e, _k) = register!($cs, &mut rng, p); Ok((setup, file)) })();
+                if let Ok((setup, file)) = reg {
+                    for (what, bad) in cands.iter() {
+                        acc.tried += 1;
+                        let r = (|| -> Result<bool, ProtocolError> { let (_s, cf) = login!($cs, &mut rng, &setup, Some(file.clone()), &bad[..], p.cred, p, p); Ok(cf.is_ok()) })();
+                        if let Ok(true) = r { acc.hit(stringify!($cs), "wrong password logged in (over-long registered password)", json!({"registered_len": n, "login_with": what, "login_len": bad.len()})); }
+                    }
+                }
+            }
+        }
     }};
 }
 macro_rules! gen_c03 {
@@ -289,24 +314,35 @@ macro_rules! gen_c05 {
 macro_rules! gen_c06 {
     ($cs:ident, $acc:expr) => {{
         let acc: &mut Acc = $acc;
-        let mut rng = StdRng::seed_from_u64(6000);
-        let p = Params { pw: b"pw", cred: b"id", idu: None, ids: None, ctx: None };
-        let r = (|| -> Result<(), ProtocolError> {
-            let (setup, file, _e, _k) = register!($cs, &mut rng, p);
-            // a setup with the SAME OPRF seed and fake key but another static key pair (built through the native encoding)
-            let other = ServerSetup::<$cs>::new(&mut rng);
-            let a = setup.serialize(); let b = other.serialize();
-            let sk_len = <<$cs as CipherSuite>::KeGroup as opaque_ke::key_exchange::group::KeGroup>::SkLen::to_usize();
-            let h = a.len() - 2 * sk_len;
-            let mut forged = a.to_vec();
-            forged[h..h + sk_len].copy_from_slice(&b[h..h + sk_len]);
-            let evil = ServerSetup::<$cs>::deserialize(&forged)?;
-            acc.tried += 1;
-            let (_s, cf) = login!($cs, &mut rng, &evil, Some(file), p.pw, p.cred, p, p);
-            if cf.is_ok() { acc.hit(stringify!($cs), "login succeeded under a substituted server static key", json!({})); }
-            Ok(())
-        })();
-        if let Err(e) = r { acc.hit(stringify!($cs), "setup failed", json!({"error": format!("{:?}", e)})); }
+        // every combination of explicit / absent identities (the server key enters the envelope both as key and as default identity)
+        let combos: Vec<(Option<&[u8]>, Option<&[u8]>)> = vec![(None, None), (Some(b"alice"), None), (None, Some(b"server.example")), (Some(b"alice"), Some(b"server.example"))];
+        for (ci, (idu, ids)) in combos.iter().enumerate() {
+            let mut rng = StdRng::seed_from_u64(6000 + ci as u64);
+            let p = Params { pw: b"pw", cred: b"id", idu: *idu, ids: *ids, ctx: None };
+            let r = (|| -> Result<(), ProtocolError> {
+                let (setup, file, _e, reg_pk) = register!($cs, &mut rng, p);
+                acc.tried += 1;
+                if reg_pk.serialize() != setup.keypair().public().serialize() { acc.hit(stringify!($cs), "server key reported at registration differs from the setup's", json!({"client_id": idu.is_some(), "server_id": ids.is_some()})); }
+                // honest login reports the setup's key
+                let (_s0, cf0) = login!($cs, &mut rng, &setup, Some(file.clone()), p.pw, p.cred, p, p);
+                acc.tried += 1;
+                match cf0 { Ok(f) => if f.server_s_pk.serialize() != setup.keypair().public().serialize() { acc.hit(stringify!($cs), "server key reported at login differs from the setup's", json!({"client_id": idu.is_some(), "server_id": ids.is_some()})); },
+                            Err(e) => acc.hit(stringify!($cs), "honest login failed", json!({"error": format!("{:?}", e), "client_id": idu.is_some(), "server_id": ids.is_some()})) }
+                // a setup with the SAME OPRF seed and fake key but another static key pair (built through the native encoding)
+                let other = ServerSetup::<$cs>::new(&mut rng);
+                let a = setup.serialize(); let b = other.serialize();
+                let sk_len = <<$cs as CipherSuite>::KeGroup as opaque_ke::key_exchange::group::KeGroup>::SkLen::to_usize();
+                let h = a.len() - 2 * sk_len;
+                let mut forged = a.to_vec();
+                forged[h..h + sk_len].copy_from_slice(&b[h..h + sk_len]);
+                let evil = ServerSetup::<$cs>::deserialize(&forged)?;
+                acc.tried += 1;
+                let (_s, cf) = login!($cs, &mut rng, &evil, Some(file), p.pw, p.cred, p, p);
+                if cf.is_ok() { acc.hit(stringify!($cs), "login succeeded under a substituted server static key", json!({"client_id": idu.is_some(), "server_id": ids.is_some()})); }
+                Ok(())
+            })();
+            if let Err(e) = r { acc.hit(stringify!($cs), "setup failed", json!({"error": format!("{:?}", e)})); }
+        }
     }};
 }
 macro_rules! gen_c08 {
@@ -417,6 +453,66 @@ macro_rules! gen_c10 {
         if let Err(e) = r { acc.hit(stringify!($cs), "setup failed", json!({"error": format!("{:?}", e)})); }
     }};
 }
+/// C12 for the decoders: every length 0 ..= L + 2 of three patterns (zeros, 0xff, a valid encoding truncated / extended) given to every
+/// message / state / key decoder under catch_unwind: a panic is a hit (the return value is not judged here, that is C10 / C11)
+macro_rules! gen_c12dec {
+    ($cs:ident, $acc:expr) => {{
+        let acc: &mut Acc = $acc;
+        type KG = <$cs as CipherSuite>::KeGroup;
+        let mut rng = StdRng::seed_from_u64(12700);
+        let p = Params { pw: b"pw", cred: b"id", idu: None, ids: None, ctx: None };
+        let r = (|| -> Result<(), ProtocolError> {
+            let setup = ServerSetup::<$cs>::new(&mut rng);
+            let c = ClientRegistration::<$cs>::start(&mut rng, p.pw)?;
+            let req = c.message.serialize().to_vec();
+            let creg = c.state.serialize().to_vec();
+            let s = ServerRegistration::<$cs>::start(&setup, c.message, p.cred)?;
+            let resp = s.message.serialize().to_vec();
+            let f = c.state.finish(&mut rng, p.pw, s.message, ClientRegistrationFinishParameters::default())?;
+            let upl = f.message.serialize().to_vec();
+            let file = ServerRegistration::<$cs>::finish(f.message);
+            let cl = ClientLogin::<$cs>::start(&mut rng, p.pw)?;
+            let creq = cl.message.serialize().to_vec();
+            let clog = cl.state.serialize().to_vec();
+            let sl = ServerLogin::<$cs>::start(&mut rng, &setup, Some(file.clone()), cl.message, p.cred, ServerLoginStartParameters::default())?;
+            let cresp = sl.message.serialize().to_vec();
+            let slog = sl.state.serialize().to_vec();
+            let fin = cl.state.finish(p.pw, sl.message, ClientLoginFinishParameters::default())?.message.serialize().to_vec();
+            let set = setup.serialize().to_vec();
+            let filb = file.serialize().to_vec();
+            let pkb = setup.keypair().public().serialize().to_vec();
+            let skb = { use opaque_ke::keypair::SecretKey as _; setup.keypair().private().serialize().to_vec() };
+            let decs: Vec<(&str, Box<dyn Fn(&[u8]) -> bool>, Vec<u8>)> = vec![
+                ("RegistrationRequest", Box::new(|b| RegistrationRequest::<$cs>::deserialize(b).is_ok()), req),
+                ("RegistrationResponse", Box::new(|b| RegistrationResponse::<$cs>::deserialize(b).is_ok()), resp),
+                ("RegistrationUpload", Box::new(|b| RegistrationUpload::<$cs>::deserialize(b).is_ok()), upl),
+                ("CredentialRequest", Box::new(|b| CredentialRequest::<$cs>::deserialize(b).is_ok()), creq),
+                ("CredentialResponse", Box::new(|b| CredentialResponse::<$cs>::deserialize(b).is_ok()), cresp),
+                ("CredentialFinalization", Box::new(|b| CredentialFinalization::<$cs>::deserialize(b).is_ok()), fin),
+                ("ServerRegistration", Box::new(|b| ServerRegistration::<$cs>::deserialize(b).is_ok()), filb),
+                ("ServerSetup", Box::new(|b| ServerSetup::<$cs>::deserialize(b).is_ok()), set),
+                ("ClientRegistration", Box::new(|b| ClientRegistration::<$cs>::deserialize(b).is_ok()), creg),
+                ("ClientLogin", Box::new(|b| ClientLogin::<$cs>::deserialize(b).is_ok()), clog),
+                ("ServerLogin", Box::new(|b| ServerLogin::<$cs>::deserialize(b).is_ok()), slog),
+                ("PublicKey", Box::new(|b| opaque_ke::keypair::PublicKey::<KG>::deserialize(b).is_ok()), pkb),
+                ("KeyPair::from_private_key_slice", Box::new(|b| opaque_ke::keypair::KeyPair::<KG>::from_private_key_slice(b).is_ok()), skb),
+            ];
+            for (name, dec, good) in decs.iter() {
+                for len in 0..=good.len() + 2 {
+                    let ext: Vec<u8> = good.iter().cloned().chain([0u8, 0xff]).take(len).collect();
+                    for (pat, v) in [("zeros", vec![0u8; len]), ("0xff", vec![0xffu8; len]), ("valid encoding truncated / extended", ext)] {
+                        acc.tried += 1;
+                        if std::panic::catch_unwind(std::panic::AssertUnwindSafe(|| dec(&v))).is_err() {
+                            acc.hit(stringify!($cs), "PANIC in a decoder", json!({"decoder": name, "pattern": pat, "len": len, "input": hx(&v[..v.len().min(80)])}));
+                        }
+                    }
+                }
+            }
+            Ok(())
+        })();
+        if let Err(e) = r { acc.hit(stringify!($cs), "setup failed", json!({"error": format!("{:?}", e)})); }
+    }};
+}
 macro_rules! gen_c12 {
     ($cs:ident, $acc:expr) => {{
         let acc: &mut Acc = $acc;
@@ -513,9 +609,13 @@ macro_rules! gen_c13 {
 }
 
 /// C14 / C17: determinism in the tape, freshness of every random value, independence from the blind
-macro_rules! gen_c17 {
-    ($cs:ident, $acc:expr) => {{
+macro_rules! gen_c17 { ($cs:ident, $acc:expr) => { gen_c14_c17!($cs, $acc, false) }; }
+macro_rules! gen_c14 { ($cs:ident, $acc:expr) => { gen_c14_c17!($cs, $acc, true) }; }
+/// shared runs; `$keyed == true` adds what only C14 states (masking key independent of the blind, keyed per credential identifier / password / seed)
+macro_rules! gen_c14_c17 {
+    ($cs:ident, $acc:expr, $keyed:expr) => {{
         let acc: &mut Acc = $acc;
+        let keyed: bool = $keyed;
         let p = Params { pw: b"pw", cred: b"id", idu: None, ids: None, ctx: None };
         let run = |seed: u64| -> Result<Vec<Vec<u8>>, ProtocolError> {
             let mut rng = StdRng::seed_from_u64(seed);
@@ -541,6 +641,22 @@ macro_rules! gen_c17 {
             }
             (x, _, _) => acc.hit(stringify!($cs), "honest run failed", json!({"error": format!("{:?}", x.err())})),
         }
+        // 64 independent tapes: no random value repeats (a value fed by a few bits of the tape only would collide here)
+        {
+            let mut seen: Vec<std::collections::HashSet<Vec<u8>>> = (0..5).map(|_| std::collections::HashSet::new()).collect();
+            let names = ["server setup (OPRF seed / key pairs)", "registration request (blind)", "registration upload (envelope nonce)", "credential request (blind, client nonce, ephemeral key)", "credential response (masking nonce, server nonce, ephemeral key)"];
+            let mut seeds: std::collections::HashSet<Vec<u8>> = std::collections::HashSet::new();
+            for t in 0..64u64 {
+                acc.tried += 1;
+                if let Ok(v) = run(170000 + t) {
+                    let nh = v[0].len() - 2 * <<$cs as CipherSuite>::KeGroup as opaque_ke::key_exchange::group::KeGroup>::SkLen::to_usize();
+                    if !seeds.insert(v[0][..nh].to_vec()) { acc.hit(stringify!($cs), "the server OPRF seed repeats across independent tapes", json!({"tape": t, "seed": hx(&v[0][..nh])})); break; }
+                    let mut stop = false;
+                    for i in 0..5 { if !seen[i].insert(v[i].clone()) { acc.hit(stringify!($cs), "a value meant to be random repeats across independent tapes", json!({"message": names[i], "tape": t})); stop = true; } }
+                    if stop { break; }
+                }
+            }
+        }
         // same password, same server, two registrations on independent tapes: different requests, same masking key
         let r = (|| -> Result<(), ProtocolError> {
             let mut rng = StdRng::seed_from_u64(1700);
@@ -559,7 +675,8 @@ macro_rules! gen_c17 {
             }
             acc.tried += 3;
             if reqs[0] == reqs[1] || reqs[1] == reqs[2] { acc.hit(stringify!($cs), "registration requests for the same password on independent tapes are identical (blind not fresh)", json!({"request": hx(&reqs[0])})); }
-            if mks[0] != mks[1] || mks[1] != mks[2] { acc.hit(stringify!($cs), "masking key depends on the blinding randomness", json!({})); }
+            if keyed && (mks[0] != mks[1] || mks[1] != mks[2]) { acc.hit(stringify!($cs), "masking key depends on the blinding randomness", json!({})); }
+            if !keyed { return Ok(()); }
             // other credential identifiers (empty, prefixes of one another, long ones sharing a long prefix): the SAME request must be
             // evaluated under a different key for each, at registration and at login alike
             let long_a = vec![0x61u8; 300]; let mut long_b = long_a.clone(); long_b[299] = 0x62;
@@ -600,6 +717,30 @@ macro_rules! gen_c17 {
             for i in 0..pmk.len() { for j in 0..i { if pmk[i] == pmk[j] {
                 acc.hit(stringify!($cs), "two different passwords derive the same masking key", json!({"len_a": pws[j].len(), "len_b": pws[i].len(), "first_difference_at": pws[i].iter().zip(pws[j].iter()).position(|(x, y)| x != y)}));
             } } }
+            // a password beyond the encodable limit is refused on the unchanged tree; should a tree accept it, it must not coincide with anything
+            // it could have been folded into (prefix at the limit, digests in the HMAC long-key idiom)
+            {
+                use sha2::Digest as _;
+                let over: Vec<u8> = (0..65536u32).map(|i| (i % 247) as u8).collect();
+                let mk_of = |pw: &[u8]| -> Result<Vec<u8>, ProtocolError> {
+                    let mut r5 = StdRng::seed_from_u64(15);
+                    let c = ClientRegistration::<$cs>::start(&mut r5, pw)?;
+                    let s = ServerRegistration::<$cs>::start(&setup, c.message, p.cred)?;
+                    let f = c.state.finish(&mut r5, pw, s.message, ClientRegistrationFinishParameters::default())?;
+                    let u = f.message.serialize().to_vec();
+                    let npk = <<$cs as CipherSuite>::KeGroup as opaque_ke::key_exchange::group::KeGroup>::PkLen::to_usize();
+                    let nh = (u.len() - npk - 32) / 2;
+                    Ok(u[npk..npk + nh].to_vec())
+                };
+                acc.tried += 1;
+                if let Ok(mk_over) = mk_of(&over) {
+                    let cands: Vec<(&str, Vec<u8>)> = vec![("first 65535 bytes", over[..65535].to_vec()), ("SHA-256", sha2::Sha256::digest(&over).to_vec()), ("SHA-384", sha2::Sha384::digest(&over).to_vec()), ("SHA-512", sha2::Sha512::digest(&over).to_vec())];
+                    for (what, c) in cands.iter() {
+                        acc.tried += 1;
+                        if let Ok(mk) = mk_of(c) { if mk == mk_over { acc.hit(stringify!($cs), "an over-long password and a different short one derive the same masking key", json!({"short_one": what})); } }
+                    }
+                }
+            }
             // another server (other seed): different evaluation for the same identifier
             let setup2 = ServerSetup::<$cs>::new(&mut r3);
             acc.tried += 1;
@@ -643,6 +784,22 @@ macro_rules! gen_c16 {
                 secrets.push(cf.session_key.to_vec());
             }
             for sec in secrets { if sec.len() >= 16 && wire.windows(sec.len()).any(|w| w == &sec[..]) { acc.hit(stringify!($cs), "a secret appears verbatim in transmitted / stored bytes", json!({"secret_len": sec.len()})); } }
+            // another password yields another export key - also beyond the encodable limit, should a tree accept such passwords at all:
+            // same client randomness, passwords that agree on the first 65535 / 65533 bytes
+            let over: Vec<u8> = (0..65600u32).map(|i| (i % 241) as u8).collect();
+            let exp_of = |pw: &[u8]| -> Result<Vec<u8>, ProtocolError> {
+                let mut r6 = StdRng::seed_from_u64(16600);
+                let c = ClientRegistration::<$cs>::start(&mut r6, pw)?;
+                let s = ServerRegistration::<$cs>::start(&setup, c.message, p.cred)?;
+                Ok(c.state.finish(&mut r6, pw, s.message, ClientRegistrationFinishParameters::default())?.export_key.to_vec())
+            };
+            acc.tried += 1;
+            if let Ok(e_over) = exp_of(&over) {
+                for n in [65535usize, 65534, 65533, 65536, 65599] {
+                    acc.tried += 1;
+                    if let Ok(e) = exp_of(&over[..n]) { if e == e_over { acc.hit(stringify!($cs), "another password (a proper prefix of an over-long one) yields the same export key", json!({"prefix_len": n, "full_len": over.len()})); } }
+                }
+            }
             Ok(())
         })();
         if let Err(e) = r { acc.hit(stringify!($cs), "honest run failed", json!({"error": format!("{:?}", e)})); }
@@ -698,6 +855,34 @@ macro_rules! gen_c07 {
                 }
             } }
             for i in 0..keys.len() { for j in 0..i { if keys[i] == keys[j] { acc.hit(stringify!($cs), "two completed sessions share a session key", json!({})); } } }
+            // a request or response altered in transit (top / bottom bit of every byte that starts or ends a field: both ends of every 16-byte
+            // aligned window would be too coarse, so every byte's top and bottom bit): no conversation completes on both sides
+            let c = ClientLogin::<$cs>::start(&mut rng, b"pw-a")?;
+            let req = c.message.serialize().to_vec();
+            let cst = c.state.serialize().to_vec();
+            for i in 0..req.len() { for bit in [0x80u8, 0x01] {
+                let mut r2 = req.clone(); r2[i] ^= bit;
+                acc.tried += 1;
+                let done = (|| -> Result<bool, ProtocolError> {
+                    let mut r9 = StdRng::seed_from_u64(7700);
+                    let s = ServerLogin::<$cs>::start(&mut r9, &setup, Some(files[0].clone()), CredentialRequest::<$cs>::deserialize(&r2)?, b"alice", ServerLoginStartParameters::default())?;
+                    let cf = ClientLogin::<$cs>::deserialize(&cst)?.finish(b"pw-a", s.message, ClientLoginFinishParameters::default())?;
+                    Ok(s.state.finish(cf.message).is_ok())
+                })();
+                if let Ok(true) = done { acc.hit(stringify!($cs), "login completed on both sides although the request was altered in transit", json!({"byte": i, "mask": bit, "request_len": req.len()})); }
+            } }
+            let mut r9 = StdRng::seed_from_u64(7701);
+            let s = ServerLogin::<$cs>::start(&mut r9, &setup, Some(files[0].clone()), CredentialRequest::<$cs>::deserialize(&req)?, b"alice", ServerLoginStartParameters::default())?;
+            let resp = s.message.serialize().to_vec();
+            for i in 0..resp.len() { for bit in [0x80u8, 0x01] {
+                let mut r2 = resp.clone(); r2[i] ^= bit;
+                acc.tried += 1;
+                let done = (|| -> Result<bool, ProtocolError> {
+                    let cf = ClientLogin::<$cs>::deserialize(&cst)?.finish(b"pw-a", CredentialResponse::<$cs>::deserialize(&r2)?, ClientLoginFinishParameters::default())?;
+                    let _ = cf; Ok(true)
+                })();
+                if let Ok(true) = done { acc.hit(stringify!($cs), "client completed although the response was altered in transit", json!({"byte": i, "mask": bit, "response_len": resp.len()})); }
+            } }
             Ok(())
         })();
         if let Err(e) = r { acc.hit(stringify!($cs), "setup failed", json!({"error": format!("{:?}", e)})); }
@@ -865,7 +1050,8 @@ fn run(gen: &str) -> Value {
     match gen {
         "c01" => { all_suites!(gen_c01, &mut acc); honest_with_ksf(&mut acc); }
         "c09" => { oracle_twin(&mut acc); argon2_adapter(&mut acc); }
-        "c14" | "c17" => { all_suites!(gen_c17, &mut acc); }
+        "c14" => { all_suites!(gen_c14, &mut acc); }
+        "c17" => { all_suites!(gen_c17, &mut acc); }
         "c16" => { all_suites!(gen_c16, &mut acc); }
         "c15" => { ksf_probe(&mut acc); argon2_honest(&mut acc); }
         "c18" => { external_key_probe(&mut acc); external_key_faults(&mut acc); }
@@ -877,7 +1063,7 @@ fn run(gen: &str) -> Value {
         "c07" => { all_suites!(gen_c07, &mut acc); }
         "c08" => { all_suites!(gen_c08, &mut acc); }
         "c10" => { all_suites!(gen_c10, &mut acc); key_length_probes(&mut acc); }
-        "c12" => { all_suites!(gen_c12, &mut acc); }
+        "c12" => { all_suites!(gen_c12, &mut acc); all_suites!(gen_c12dec, &mut acc); }
         "c13" => { all_suites!(gen_c13, &mut acc); }
         "c11" | "c19" => { group_probes(&mut acc); }
         "c18ext" => { external_key_probe(&mut acc); }
